@@ -344,4 +344,488 @@ theorem quiet_effect {c : Cfg} {s s' : State} {a : Act} (hs : step c s a = some 
       · cases hs
     · cases hs
 
+theorem quietEff_not_take {c : Cfg} {s s' : State} {a : Act} (h : QuietEff c s a s') (x : Nat) :
+    ¬ (FairAct.take x).mem a := by
+  intro hm
+  simp only [FairAct.mem] at hm
+  cases h <;> (rcases hm with ⟨_, _, e⟩ | ⟨_, e⟩ | ⟨_, e⟩ | ⟨_, _, e⟩ <;> cases e)
+
+/-- deque `v` is non-empty and worker `x` polls without having seen it empty -/
+def BufCov (s : State) (x v : Nat) : Prop := s.buf v ≠ [] ∧ ∃ seen, s.pc x = .polling seen ∧ Cont.buf v ∉ seen
+
+theorem setPc_pc_self (s : State) (w : Nat) (p : PC) : (setPc s w p).pc w = p := by simp [setPc]
+theorem setPc_pc_other (s : State) {w x : Nat} (p : PC) (h : x ≠ w) : (setPc s w p).pc x = s.pc x := by simp [setPc, h]
+
+theorem bufCov_stable {c : Cfg} {s s' : State} {a : Act} {x v : Nat} (he : QuietEff c s a s') (hv : v < c.n)
+    (h : BufCov s x v) : BufCov s' x v := by
+  obtain ⟨hb, seen, hpc, hns⟩ := h
+  cases he with
+  | observe w k seen' hw hpw hle =>
+    refine ⟨hb, ?_⟩
+    by_cases e : x = w
+    · subst e
+      rw [hpc] at hpw; injection hpw with hpw; subst hpw
+      refine ⟨k :: seen, setPc_pc_self _ _ _, ?_⟩
+      intro hmem
+      rcases List.mem_cons.1 hmem with e | e
+      · subst e
+        simp only [looksEmpty] at hle
+        cases hbv : s.buf v with
+        | nil => exact hb hbv
+        | cons q l => rw [hbv] at hle; cases hle
+      · exact hns e
+    · exact ⟨seen, by rw [setPc_pc_other _ _ e]; exact hpc, hns⟩
+  | batch w b p seen' hw hb' hpw _ _ _ =>
+    constructor
+    · show (if v = w then p :: s.buf w else _) ≠ []
+      split
+      · simp
+      · exact hb
+    · by_cases e : x = w
+      · subst e; exact ⟨[], setPc_pc_self _ _ _, by simp⟩
+      · exact ⟨seen, by rw [setPc_pc_other _ _ e]; exact hpc, hns⟩
+  | miss w seen' hw hpw hall =>
+    refine ⟨hb, ?_⟩
+    by_cases e : x = w
+    · subst e
+      rw [hpc] at hpw; injection hpw with hpw; subst hpw
+      exact absurd (hall _ (mem_allConts_buf hv)) hns
+    · exact ⟨seen, by rw [setPc_pc_other _ _ e]; exact hpc, hns⟩
+  | park w tag hw hpw =>
+    refine ⟨hb, ?_⟩
+    by_cases e : x = w
+    · subst e; rw [hpc] at hpw; cases hpw
+    · exact ⟨seen, by rw [setPc_pc_other _ _ e]; exact hpc, hns⟩
+  | wake w hw hpw _ =>
+    refine ⟨hb, ?_⟩
+    by_cases e : x = w
+    · subst e; rw [hpc] at hpw; cases hpw
+    · exact ⟨seen, by rw [setPc_pc_other _ _ e]; exact hpc, hns⟩
+
+/-- bucket `b` is runnable and worker `x` polls without having seen it empty -/
+def BktCov (s : State) (x b : Nat) : Prop :=
+  (s.bkt b).runnable = true ∧ ∃ seen, s.pc x = .polling seen ∧ Cont.bucket b ∉ seen
+
+theorem runnable_facts {k : Bucket} (h : k.runnable = true) : k.enabled = true ∧ k.isOpen = true ∧ k.q ≠ [] := by
+  simp only [Bucket.runnable, Bucket.isEmpty, Bool.and_eq_true, Bool.not_eq_true'] at h
+  refine ⟨h.1.1, h.1.2, ?_⟩
+  intro e; rw [e] at h; simp at h
+
+theorem runnable_of {k : Bucket} {p : Pkt} (h1 : k.enabled = true) (h2 : k.isOpen = true) (h3 : p ∈ k.q) :
+    k.runnable = true := by
+  simp only [Bucket.runnable, Bucket.isEmpty, h1, h2, Bool.and_self, Bool.true_and, Bool.not_eq_true']
+  cases hq : k.q with
+  | nil => rw [hq] at h3; cases h3
+  | cons a l => rfl
+
+theorem bktCov_stable {c : Cfg} {s s' : State} {a : Act} {x b : Nat} (he : QuietEff c s a s') (hb : b < c.L)
+    (hbuf : ∀ v, v < c.n → s'.buf v = []) (h : BktCov s x b) : BktCov s' x b := by
+  obtain ⟨hr, seen, hpc, hns⟩ := h
+  cases he with
+  | observe w k seen' hw hpw hle =>
+    refine ⟨hr, ?_⟩
+    by_cases e : x = w
+    · subst e
+      rw [hpc] at hpw; injection hpw with hpw; subst hpw
+      refine ⟨k :: seen, setPc_pc_self _ _ _, ?_⟩
+      intro hmem
+      rcases List.mem_cons.1 hmem with e | e
+      · subst e
+        simp only [looksEmpty, hr] at hle; cases hle
+      · exact hns e
+    · exact ⟨seen, by rw [setPc_pc_other _ _ e]; exact hpc, hns⟩
+  | batch w b' p seen' hw hb' hpw _ _ _ =>
+    exfalso
+    have := hbuf w hw
+    simp [setPc, setBuf] at this
+  | miss w seen' hw hpw hall =>
+    refine ⟨hr, ?_⟩
+    by_cases e : x = w
+    · subst e
+      rw [hpc] at hpw; injection hpw with hpw; subst hpw
+      exact absurd (hall _ (mem_allConts_bucket hb)) hns
+    · exact ⟨seen, by rw [setPc_pc_other _ _ e]; exact hpc, hns⟩
+  | park w tag hw hpw =>
+    refine ⟨hr, ?_⟩
+    by_cases e : x = w
+    · subst e; rw [hpc] at hpw; cases hpw
+    · exact ⟨seen, by rw [setPc_pc_other _ _ e]; exact hpc, hns⟩
+  | wake w hw hpw _ =>
+    refine ⟨hr, ?_⟩
+    by_cases e : x = w
+    · subst e; rw [hpc] at hpw; cases hpw
+    · exact ⟨seen, by rw [setPc_pc_other _ _ e]; exact hpc, hns⟩
+
+theorem quietEff_desig {c : Cfg} {s s' : State} {a : Act} (he : QuietEff c s a s') : s'.desig = s.desig := by
+  cases he <;> rfl
+
+theorem quietEff_park {c : Cfg} {s s' : State} {w tag : Nat} (he : QuietEff c s (.park w tag) s') :
+    s'.pc w = .waiting := by
+  cases he; exact setPc_pc_self _ _ _
+theorem quietEff_wake {c : Cfg} {s s' : State} {w : Nat} (he : QuietEff c s (.wake w) s') :
+    s'.pc w = .polling [] := by
+  cases he; exact setPc_pc_self _ _ _
+theorem quietEff_miss {c : Cfg} {s s' : State} {w : Nat} (he : QuietEff c s (.pollMiss w) s') :
+    s'.pc w = .parking := by
+  cases he; exact setPc_pc_self _ _ _
+theorem quietEff_observe {c : Cfg} {s s' : State} {w : Nat} {k : Cont} (he : QuietEff c s (.observeEmpty w k) s') :
+    ∃ seen, s.pc w = .polling seen ∧ s'.pc w = .polling (k :: seen) := by
+  cases he with
+  | observe _ _ seen _ hpw _ => exact ⟨seen, hpw, setPc_pc_self _ _ _⟩
+
+/-- what a quiet step does to the program counter of worker `x` -/
+theorem quietEff_pc {c : Cfg} {s s' : State} {a : Act} (he : QuietEff c s a s') (x : Nat) :
+    s'.pc x = s.pc x ∨
+    (∃ k seen, a = .observeEmpty x k ∧ s.pc x = .polling seen ∧ s'.pc x = .polling (k :: seen) ∧ looksEmpty s x k = true) ∨
+    (∃ b p seen, a = .batchMove x b p ∧ b < c.L ∧ (s.bkt b).runnable = true ∧ s.pc x = .polling seen) ∨
+    (∃ seen, a = .pollMiss x ∧ s.pc x = .polling seen ∧ ∀ k, k ∈ allConts c → k ∈ seen) ∨
+    (∃ tag, a = .park x tag ∧ s.pc x = .parking) ∨ (a = .wake x ∧ s.pc x = .woken) := by
+  cases he with
+  | observe w k seen hw hpw hle =>
+    by_cases e : x = w
+    · subst e; exact Or.inr (Or.inl ⟨k, seen, rfl, hpw, setPc_pc_self _ _ _, hle⟩)
+    · exact Or.inl (setPc_pc_other _ _ e)
+  | batch w b p seen hw hb hpw h1 h2 h3 =>
+    by_cases e : x = w
+    · subst e; exact Or.inr (Or.inr (Or.inl ⟨b, p, seen, rfl, hb, runnable_of h1 h2 h3, hpw⟩))
+    · exact Or.inl (setPc_pc_other _ _ e)
+  | miss w seen hw hpw hall =>
+    by_cases e : x = w
+    · subst e; exact Or.inr (Or.inr (Or.inr (Or.inl ⟨seen, rfl, hpw, hall⟩)))
+    · exact Or.inl (setPc_pc_other _ _ e)
+  | park w tag hw hpw =>
+    by_cases e : x = w
+    · subst e; exact Or.inr (Or.inr (Or.inr (Or.inr (Or.inl ⟨tag, rfl, hpw⟩))))
+    · exact Or.inl (setPc_pc_other _ _ e)
+  | wake w hw hpw _ =>
+    by_cases e : x = w
+    · subst e; exact Or.inr (Or.inr (Or.inr (Or.inr (Or.inr ⟨rfl, hpw⟩))))
+    · exact Or.inl (setPc_pc_other _ _ e)
+
+theorem countW_pos (n : Nat) (f : Nat → Bool) (w : Nat) (hw : w < n) (h : f w = true) : 0 < countW n f := by
+  induction n with
+  | zero => omega
+  | succ n ih =>
+    rw [countW_succ]
+    by_cases e : w = n
+    · subst e; simp [h]
+    · have := ih (by omega); omega
+
+/-! ## a stuck run is impossible -/
+
+/-- a fair run in which nothing ever happens but quiet steps although a goal is requested or current -/
+structure Stuck (c : Cfg) (tr : Nat → State) (act : Nat → Option Act) : Prop where
+  run : FairRun c tr act
+  eff : ∀ j a, act j = some a → QuietEff c (tr j) a (tr (j+1))
+  noexec : ∀ j w, w < c.n → ((tr j).pc w).isExec = false
+  noexit : ∀ j, NoExit (tr j)
+  nosurr : ∀ j w, w < c.n → (tr j).pc w ≠ .surrendered
+  noassert : NoAssert c tr
+  pending : ∀ j, anyRequested (tr j) = true ∨ (tr j).current ≠ none
+
+section stuck
+variable {c : Cfg} {tr : Nat → State} {act : Nat → Option Act}
+
+theorem Stuck.next_cases (S : Stuck c tr act) (j : Nat) :
+    tr (j+1) = tr j ∨ ∃ a, act j = some a ∧ QuietEff c (tr j) a (tr (j+1)) := by
+  have := S.run.next j
+  cases ha : act j with
+  | none => rw [ha] at this; exact Or.inl this
+  | some a => exact Or.inr ⟨a, rfl, S.eff j a ha⟩
+
+theorem Stuck.no_take (S : Stuck c tr act) (j x : Nat) : ¬ Taken act j (.take x) := by
+  intro ⟨a, ha, hm⟩
+  exact quietEff_not_take (S.eff j a ha) x hm
+
+/-- (A) in a stuck run every local deque is empty -/
+theorem Stuck.buf_empty (S : Stuck c tr act) (hn : 0 < c.n) (hmut : c.mutAddOpen = false) (j v : Nat) (hv : v < c.n) :
+    (tr j).buf v = [] := by
+  apply Classical.byContradiction
+  intro hne
+  obtain ⟨x, hx, hc⟩ := (reachable_inv hn hmut (S.run.reach j)).c' (.buf v) ⟨hv, hne⟩
+  have hpx : ∃ seen, (tr j).pc x = .polling seen ∧ Cont.buf v ∉ seen := by
+    unfold covers at hc
+    cases hp : (tr j).pc x <;> rw [hp] at hc
+    case polling seen => exact ⟨seen, rfl, hc⟩
+    case exec p => have := S.noexec j x hx; rw [hp] at this; cases this
+    all_goals exact hc.elim
+  obtain ⟨m, _, hP, hT⟩ := wf1 S.run (.take x) (fun m => BufCov (tr m) x v) j ⟨hne, hpx⟩
+    (by
+      intro m _ hP _
+      rcases S.next_cases m with e | ⟨a, _, he⟩
+      · rw [e]; exact hP
+      · exact bufCov_stable he hv hP)
+    (by
+      intro m _ ⟨hb, seen, hpc, hns⟩
+      cases hbv : (tr m).buf v with
+      | nil => exact absurd hbv hb
+      | cons p l =>
+        by_cases e : v = x
+        · subst e
+          refine ⟨.popLocal v p, Or.inr (Or.inl ⟨p, rfl⟩), ?_⟩
+          simp [step, hpc, hx, hbv]
+        · refine ⟨.steal x v p, Or.inr (Or.inr (Or.inr ⟨v, p, rfl⟩)), ?_⟩
+          simp [step, hpc, hx, hv, hbv, e])
+  exact S.no_take m x hT
+
+/-- (B) in a stuck run no bucket is runnable -/
+theorem Stuck.no_runnable (S : Stuck c tr act) (hn : 0 < c.n) (hmut : c.mutAddOpen = false) (j b : Nat) (hb : b < c.L) :
+    ((tr j).bkt b).runnable = false := by
+  cases hr : ((tr j).bkt b).runnable with
+  | false => rfl
+  | true =>
+    exfalso
+    obtain ⟨x, hx, hc⟩ := (reachable_inv hn hmut (S.run.reach j)).c' (.bucket b) ⟨hb, hr⟩
+    have hpx : ∃ seen, (tr j).pc x = .polling seen ∧ Cont.bucket b ∉ seen := by
+      unfold covers at hc
+      cases hp : (tr j).pc x <;> rw [hp] at hc
+      case polling seen => exact ⟨seen, rfl, hc⟩
+      case exec p => have := S.noexec j x hx; rw [hp] at this; cases this
+      all_goals exact hc.elim
+    obtain ⟨m, _, hP, hT⟩ := wf1 S.run (.take x) (fun m => BktCov (tr m) x b) j ⟨hr, hpx⟩
+      (by
+        intro m _ hP _
+        rcases S.next_cases m with e | ⟨a, _, he⟩
+        · rw [e]; exact hP
+        · exact bktCov_stable he hb (fun v hv => S.buf_empty hn hmut (m+1) v hv) hP)
+      (by
+        intro m _ ⟨hr, seen, hpc, hns⟩
+        obtain ⟨h1, h2, h3⟩ := runnable_facts hr
+        cases hq : ((tr m).bkt b).q with
+        | nil => exact absurd hq h3
+        | cons p l =>
+          refine ⟨.pollBucket x b p, Or.inl ⟨b, p, rfl⟩, ?_⟩
+          simp [step, hpc, hx, hb, h1, h2, hq])
+    exact S.no_take m x hT
+
+/-- in a stuck run every container a polling worker has not yet seen looks empty to it -/
+theorem Stuck.looks_empty (S : Stuck c tr act) (hn : 0 < c.n) (hmut : c.mutAddOpen = false) (j w : Nat) (hw : w < c.n)
+    (k : Cont) (hk : k ∈ allConts c) (seen : List Cont) (hpc : (tr j).pc w = .polling seen) (hns : k ∉ seen) :
+    looksEmpty (tr j) w k = true := by
+  cases k with
+  | bucket b =>
+    have hb : b < c.L := by simpa [allConts] using hk
+    simp [looksEmpty, S.no_runnable hn hmut j b hb]
+  | buf v =>
+    have hv : v < c.n := by simpa [allConts] using hk
+    simp [looksEmpty, S.buf_empty hn hmut j v hv]
+  | desig =>
+    cases hd : (tr j).desig w with
+    | nil => simp [looksEmpty, hd]
+    | cons p0 l0 =>
+      exfalso
+      obtain ⟨m, _, hP, hT⟩ := wf1 S.run (.take w)
+        (fun m => (tr m).desig w ≠ [] ∧ ∃ seen, (tr m).pc w = .polling seen ∧ Cont.desig ∉ seen) j
+        ⟨by rw [hd]; simp, seen, hpc, hns⟩
+        (by
+          intro m _ ⟨hne, seen, hpc, hns⟩ _
+          rcases S.next_cases m with e | ⟨a, _, he⟩
+          · rw [e]; exact ⟨hne, seen, hpc, hns⟩
+          · refine ⟨by rw [quietEff_desig he]; exact hne, ?_⟩
+            rcases quietEff_pc he w with h | ⟨k, seen', _, hp1, hp2, hle⟩ | ⟨b, p, _, _, hb, hr, _⟩ | ⟨seen', _, hp1, hall⟩ | ⟨tag, _, hpw⟩ | ⟨_, hpw⟩
+            · exact ⟨seen, by rw [h]; exact hpc, hns⟩
+            · rw [hpc] at hp1; injection hp1 with hp1; subst hp1
+              refine ⟨_, hp2, ?_⟩
+              intro hmem
+              rcases List.mem_cons.1 hmem with e | e
+              · subst e
+                simp only [looksEmpty] at hle
+                cases hdv : (tr m).desig w with
+                | nil => exact hne hdv
+                | cons q l => rw [hdv] at hle; cases hle
+              · exact hns e
+            · rw [S.no_runnable hn hmut m b hb] at hr; cases hr
+            · rw [hpc] at hp1; injection hp1 with hp1; subst hp1
+              exact absurd (hall _ (by simp [allConts])) hns
+            · rw [hpc] at hpw; cases hpw
+            · rw [hpc] at hpw; cases hpw)
+        (by
+          intro m _ ⟨hne, seen, hpc, hns⟩
+          cases hdv : (tr m).desig w with
+          | nil => exact absurd hdv hne
+          | cons p l =>
+            refine ⟨.popDesig w p, Or.inr (Or.inr (Or.inl ⟨p, rfl⟩)), ?_⟩
+            simp [step, hpc, hw, hdv])
+      exact S.no_take m w hT
+
+theorem Stuck.waiting_forever (S : Stuck c tr act) (w j : Nat) (h : (tr j).pc w = .waiting) :
+    ∀ i, j ≤ i → (tr i).pc w = .waiting := by
+  have : ∀ d, (tr (j + d)).pc w = .waiting := by
+    intro d
+    induction d with
+    | zero => exact h
+    | succ d ih =>
+      rcases S.next_cases (j + d) with e | ⟨a, _, he⟩
+      · show (tr (j + d + 1)).pc w = _; rw [e]; exact ih
+      · show (tr (j + d + 1)).pc w = _
+        rcases quietEff_pc he w with h | ⟨k, seen', _, hp1, _⟩ | ⟨b, p, _, _, _, _, hpw⟩ | ⟨seen', _, hp1, _⟩ | ⟨tag, rfl, hpw2⟩ | ⟨rfl, hpw3⟩
+        · rw [h]; exact ih
+        · rw [ih] at hp1; cases hp1
+        · rw [ih] at hpw; cases hpw
+        · rw [ih] at hp1; cases hp1
+        · rw [ih] at hpw2; cases hpw2
+        · rw [ih] at hpw3; cases hpw3
+  intro i hi
+  have := this (i - j)
+  rwa [show j + (i - j) = i by omega] at this
+
+theorem Stuck.parking_to_waiting (S : Stuck c tr act) (w j : Nat) (hw : w < c.n) (h : (tr j).pc w = .parking) :
+    ∃ i, j ≤ i ∧ (tr i).pc w = .waiting := by
+  obtain ⟨m, hm, hP, a, ha, tag, rfl⟩ := wf1 S.run (.park w) (fun m => (tr m).pc w = .parking) j h
+    (by
+      intro m _ hP hnt
+      rcases S.next_cases m with e | ⟨a, ha, he⟩
+      · rw [e]; exact hP
+      · rcases quietEff_pc he w with h | ⟨k, seen', _, hp1, _⟩ | ⟨b, p, _, _, _, _, hpw⟩ | ⟨seen', _, hp1, _⟩ | ⟨tag, rfl, hpw2⟩ | ⟨rfl, hpw3⟩
+        · rw [h]; exact hP
+        · rw [hP] at hp1; cases hp1
+        · rw [hP] at hpw; cases hpw
+        · rw [hP] at hp1; cases hp1
+        · exact absurd ⟨_, ha, tag, rfl⟩ hnt
+        · rw [hP] at hpw3; cases hpw3)
+    (by
+      intro m _ hP
+      obtain ⟨tag, ht⟩ := S.noassert m w hw hP
+      exact ⟨.park w tag, ⟨tag, rfl⟩, ht⟩)
+  exact ⟨m + 1, by omega, quietEff_park (S.eff m _ ha)⟩
+
+theorem Stuck.woken_to_polling (S : Stuck c tr act) (w j : Nat) (hw : w < c.n) (h : (tr j).pc w = .woken) :
+    ∃ i, j ≤ i ∧ (tr i).pc w = .polling [] := by
+  obtain ⟨m, hm, hP, a, ha, rfl⟩ := wf1 S.run (.wake w) (fun m => (tr m).pc w = .woken) j h
+    (by
+      intro m _ hP hnt
+      rcases S.next_cases m with e | ⟨a, ha, he⟩
+      · rw [e]; exact hP
+      · rcases quietEff_pc he w with h | ⟨k, seen', _, hp1, _⟩ | ⟨b, p, _, _, _, _, hpw⟩ | ⟨seen', _, hp1, _⟩ | ⟨tag, rfl, hpw2⟩ | ⟨rfl, hpw3⟩
+        · rw [h]; exact hP
+        · rw [hP] at hp1; cases hp1
+        · rw [hP] at hpw; cases hpw
+        · rw [hP] at hp1; cases hp1
+        · rw [hP] at hpw2; cases hpw2
+        · exact absurd ⟨_, ha, rfl⟩ hnt)
+    (by
+      intro m _ hP
+      refine ⟨.wake w, rfl, ?_⟩
+      have hA := reachable_invA (S.run.reach m)
+      have hpos : 0 < (tr m).parked := by
+        rw [hA.parked_eq]
+        exact countW_pos c.n _ w hw (by rw [hP]; rfl)
+      simp [step, hw, hP, hpos])
+  exact ⟨m + 1, by omega, quietEff_wake (S.eff m _ ha)⟩
+
+theorem Stuck.polling_seen (S : Stuck c tr act) (hn : 0 < c.n) (hmut : c.mutAddOpen = false) (w : Nat) (hw : w < c.n)
+    (l : List Cont) (hl : ∀ k, k ∈ l → k ∈ allConts c) :
+    ∀ j seen, (tr j).pc w = .polling seen →
+      ∃ i, j ≤ i ∧ ((tr i).pc w = .parking ∨ ∃ seen', (tr i).pc w = .polling seen' ∧ ∀ k, k ∈ l → k ∈ seen') := by
+  induction l with
+  | nil => intro j seen h; exact ⟨j, Nat.le_refl _, Or.inr ⟨seen, h, fun k hk => by cases hk⟩⟩
+  | cons k l ih =>
+    intro j seen h
+    obtain ⟨i, hji, hi⟩ := ih (fun k' hk' => hl k' (List.mem_cons_of_mem _ hk')) j seen h
+    rcases hi with hi | ⟨seen', hpc, hall⟩
+    · exact ⟨i, hji, Or.inl hi⟩
+    · by_cases hk : k ∈ seen'
+      · refine ⟨i, hji, Or.inr ⟨seen', hpc, fun k' hk' => ?_⟩⟩
+        rcases List.mem_cons.1 hk' with e | e
+        · subst e; exact hk
+        · exact hall k' e
+      · have hkc : k ∈ allConts c := hl k (List.mem_cons_self ..)
+        obtain ⟨m, hm, ⟨sn, hp, hal, hkn⟩, a, ha, hmem⟩ := wf1 S.run (.look w k)
+          (fun m => ∃ sn, (tr m).pc w = .polling sn ∧ (∀ k', k' ∈ l → k' ∈ sn) ∧ k ∉ sn) i ⟨seen', hpc, hall, hk⟩
+          (by
+            intro m _ ⟨sn, hp, hal, hkn⟩ hnt
+            rcases S.next_cases m with e | ⟨a, ha, he⟩
+            · rw [e]; exact ⟨sn, hp, hal, hkn⟩
+            · rcases quietEff_pc he w with h | ⟨k2, sn2, rfl, hp1, hp2, _⟩ | ⟨b, p, _, _, hb, hr, _⟩ | ⟨sn2, _, hp1, hall2⟩ |
+                ⟨tag, _, hpw⟩ | ⟨_, hpw⟩
+              · exact ⟨sn, by rw [h]; exact hp, hal, hkn⟩
+              · rw [hp] at hp1; injection hp1 with hp1; subst hp1
+                refine ⟨_, hp2, fun k' hk' => List.mem_cons_of_mem _ (hal k' hk'), ?_⟩
+                intro hmem
+                rcases List.mem_cons.1 hmem with e | e
+                · subst e; exact hnt ⟨_, ha, rfl⟩
+                · exact hkn e
+              · rw [S.no_runnable hn hmut m b hb] at hr; cases hr
+              · rw [hp] at hp1; injection hp1 with hp1; subst hp1
+                exact absurd (hall2 k hkc) hkn
+              · rw [hp] at hpw; cases hpw
+              · rw [hp] at hpw; cases hpw)
+          (by
+            intro m _ ⟨sn, hp, hal, hkn⟩
+            have hle := S.looks_empty hn hmut m w hw k hkc sn hp hkn
+            refine ⟨.observeEmpty w k, rfl, ?_⟩
+            simp [step, hp, hw, hle])
+        simp only [FairAct.mem] at hmem; subst hmem
+        obtain ⟨sn0, hp0, hp1⟩ := quietEff_observe (S.eff m _ ha)
+        rw [hp] at hp0; injection hp0 with hp0; subst hp0
+        refine ⟨m + 1, by omega, Or.inr ⟨_, hp1, fun k' hk' => ?_⟩⟩
+        rcases List.mem_cons.1 hk' with e | e
+        · subst e; exact List.mem_cons_self ..
+        · exact List.mem_cons_of_mem _ (hal k' e)
+
+theorem Stuck.polling_to_parking (S : Stuck c tr act) (hn : 0 < c.n) (hmut : c.mutAddOpen = false) (w j : Nat) (hw : w < c.n)
+    (seen : List Cont) (h : (tr j).pc w = .polling seen) : ∃ i, j ≤ i ∧ (tr i).pc w = .parking := by
+  obtain ⟨i, hji, hi⟩ := S.polling_seen hn hmut w hw (allConts c) (fun k hk => hk) j seen h
+  rcases hi with hi | ⟨seen', hpc, hall⟩
+  · exact ⟨i, hji, hi⟩
+  · obtain ⟨m, hm, _, a, ha, hmem⟩ := wf1 S.run (.miss w)
+      (fun m => ∃ sn, (tr m).pc w = .polling sn ∧ ∀ k, k ∈ allConts c → k ∈ sn) i ⟨seen', hpc, hall⟩
+      (by
+        intro m _ ⟨sn, hp, hal⟩ hnt
+        rcases S.next_cases m with e | ⟨a, ha, he⟩
+        · rw [e]; exact ⟨sn, hp, hal⟩
+        · rcases quietEff_pc he w with h | ⟨k2, sn2, _, hp1, hp2, _⟩ | ⟨b, p, _, _, hb, hr, _⟩ | ⟨sn2, rfl, hp1, hall2⟩ |
+            ⟨tag, _, hpw⟩ | ⟨_, hpw⟩
+          · exact ⟨sn, by rw [h]; exact hp, hal⟩
+          · rw [hp] at hp1; injection hp1 with hp1; subst hp1
+            exact ⟨_, hp2, fun k' hk' => List.mem_cons_of_mem _ (hal k' hk')⟩
+          · rw [S.no_runnable hn hmut m b hb] at hr; cases hr
+          · exact absurd ⟨_, ha, rfl⟩ hnt
+          · rw [hp] at hpw; cases hpw
+          · rw [hp] at hpw; cases hpw)
+      (by
+        intro m _ ⟨sn, hp, hal⟩
+        refine ⟨.pollMiss w, rfl, ?_⟩
+        have : (allConts c).all (fun k => decide (k ∈ sn)) = true := by
+          rw [List.all_eq_true]; intro k hk; simpa using hal k hk
+        simp only [step, hp]
+        rw [if_pos ⟨hw, this⟩]; rfl)
+    simp only [FairAct.mem] at hmem; subst hmem
+    exact ⟨m + 1, by omega, quietEff_miss (S.eff m _ ha)⟩
+
+theorem Stuck.eventually_waiting (S : Stuck c tr act) (hn : 0 < c.n) (hmut : c.mutAddOpen = false) (w : Nat) (hw : w < c.n) :
+    ∃ J, ∀ j, J ≤ j → (tr j).pc w = .waiting := by
+  have fromParking : ∀ j, (tr j).pc w = .parking → ∃ J, ∀ j, J ≤ j → (tr j).pc w = .waiting := by
+    intro j h
+    obtain ⟨i, _, hi⟩ := S.parking_to_waiting w j hw h
+    exact ⟨i, S.waiting_forever w i hi⟩
+  have fromPolling : ∀ j seen, (tr j).pc w = .polling seen → ∃ J, ∀ j, J ≤ j → (tr j).pc w = .waiting := by
+    intro j seen h
+    obtain ⟨i, _, hi⟩ := S.polling_to_parking hn hmut w j hw seen h
+    exact fromParking i hi
+  cases hp : (tr 0).pc w with
+  | polling seen => exact fromPolling 0 seen hp
+  | exec p => have := S.noexec 0 w hw; rw [hp] at this; cases this
+  | parking => exact fromParking 0 hp
+  | waiting => exact ⟨0, S.waiting_forever w 0 hp⟩
+  | woken =>
+    obtain ⟨i, _, hi⟩ := S.woken_to_polling w 0 hw hp
+    exact fromPolling i [] hi
+  | exited =>
+    obtain ⟨g, hg1, hg2⟩ := (reachable_invE hn (S.run.reach 0)).2.exited w hw hp
+    have := S.noexit 0 g hg1; rw [this] at hg2; cases hg2
+  | surrendered => exact absurd hp (S.nosurr 0 w hw)
+
+/-- **a stuck run does not exist**: if only quiet steps happen, every worker ends up waiting, and then
+(invariant B: the last parker never sleeps on a request) nothing is requested and no goal is current -/
+theorem Stuck.false (S : Stuck c tr act) (hn : 0 < c.n) (hmut : c.mutAddOpen = false) : False := by
+  obtain ⟨J, hJ⟩ := eventually_forall_lt c.n (fun w j => (tr j).pc w = .waiting)
+    (fun w hw => S.eventually_waiting hn hmut w hw)
+  have hb := (reachable_invAB hn (S.run.reach J)).2 (fun x hx => hJ x hx J (Nat.le_refl _))
+  rcases S.pending J with h | h
+  · rw [hb.1] at h; cases h
+  · exact h hb.2
+
+end stuck
+
 end Mmtk.Sched
